@@ -13,5 +13,6 @@ LogOps == AllOps \cup LogNames
 RejectOps == StubOps \cup {"Mistake"}
 ImageHeldOps == ImageOps \cup {"Held", "Call"}
 HeldOps == AllOps \cup {"Held"}
+GenericOps == {"Apply", "Return", "Returns", "Cancel", "Reset", "Call", "Held"}   \* generic function instantiations: no parameters, hence no When
 HeldStubOps == StubOps \cup {"Held"}
 ====
